@@ -196,8 +196,9 @@ func (c *Conn) call(ctx context.Context, msg *message.UpstreamCall) (*message.Up
 
 	err := c.send(ctx, func(ctx context.Context) error {
 		c.wireConnMu.Lock()
-		defer c.wireConnMu.Unlock()
-		return c.wireConn.SendUpstreamCall(ctx, msg)
+		wireConn := c.wireConn
+		c.wireConnMu.Unlock()
+		return wireConn.SendUpstreamCall(ctx, msg)
 	})
 	if err != nil {
 		return nil, err
